@@ -45,6 +45,7 @@ typedef struct {
 	int      npeers, nworkers, ttl, window;
 	int      kind[MAXPEERS];
 	bool     use_sock;
+	int      dies; // index of a raw TCP connection that is cut mid-window, or -1
 	long     exchanges;
 	int      jit_permille, jit_us;
 	uint32_t nonce;
@@ -220,7 +221,9 @@ typedef struct {
 	nng_socket     xs;
 	svrec         *recs;
 	uint32_t       nrecs;
-	bool           failed;
+	bool           failed, died;
+	_Atomic bool   finished;
+	long           orphaned;
 	long           sent, verified, drops, common_used, maxwin;
 	long           by_hops[MAXWORDS];
 	bool           seen_worker[MAXWORK];
@@ -367,7 +370,17 @@ peer_thread(void *arg)
 	const casecfg *cc = p->cc;
 	uint32_t       seq = 0;
 	long           n = p->quota, sent = 0, out = 0, bad = 0;
+	long           die_at = cc->dies == p->idx ? n / 4 + (long) vf_below(&p->rng, (uint32_t) (n / 2)) : -1;
 	while (!p->failed && (sent < n || out > 0)) {
+		if (die_at >= 0 && sent >= die_at && out > 0) {
+			// the surveyor goes away with surveys held by (or queued for) the
+			// workers: their responses have nowhere to go - certainly not to
+			// another connection
+			p->orphaned = out;
+			p->died = true;
+			close(p->fd);
+			break;
+		}
 		// at most 'window' surveys between this peer and the workers: the raw
 		// nng surveyor drops what its 16-deep pipe queue cannot take
 		while (sent < n && out < cc->window && !p->failed && sent - atomic_load(&G.consumed[p->idx]) < cc->window) {
@@ -398,6 +411,7 @@ peer_thread(void *arg)
 			p->failed = true;
 		}
 	}
+	atomic_store(&p->finished, true);
 	return NULL;
 }
 
@@ -415,8 +429,8 @@ run_case(long idx, const casecfg *cc)
 	vf_rng       r;
 	long         probe_idle_ctx = 0, probe_idle_sock = 0;
 
-	vf_case_begin(idx, "peers=%d(%s%s%s%s) workers=%d%s ttl=%d window=%d exchanges=%ld xtran=%s jitter=%d/%dus key=%llx", cc->npeers, pkname[cc->kind[0]],
-	    cc->npeers > 1 ? pkname[cc->kind[1]] : "", cc->npeers > 2 ? pkname[cc->kind[2]] : "", cc->npeers > 3 ? pkname[cc->kind[3]] : "", cc->nworkers, cc->use_sock ? "+sock" : "", cc->ttl,
+	vf_case_begin(idx, "peers=%d(%s%s%s%s) cut=%d workers=%d%s ttl=%d window=%d exchanges=%ld xtran=%s jitter=%d/%dus key=%llx", cc->npeers, pkname[cc->kind[0]],
+	    cc->npeers > 1 ? pkname[cc->kind[1]] : "", cc->npeers > 2 ? pkname[cc->kind[2]] : "", cc->npeers > 3 ? pkname[cc->kind[3]] : "", cc->dies, cc->nworkers, cc->use_sock ? "+sock" : "", cc->ttl,
 	    cc->window, cc->exchanges, vf_tran_names[cc->tran], cc->jit_permille, cc->jit_us, (unsigned long long) cc->key);
 	vf_watchdog(240);
 	vf_rng_seed(&r, cc->key, 1);
@@ -485,22 +499,16 @@ run_case(long idx, const casecfg *cc)
 	// the socket itself if no worker uses it, have nothing to respond to
 	{
 		worker pw = { .idx = 99, .is_sock = false, .ctx = pc };
-		for (int it = 0; it < 200000; it++) {
-			long done = 0, total = 0;
-			for (int i = 0; i < cc->npeers; i++) {
-				done += atomic_load(&G.consumed[i]);
-				total += pr[i].quota;
-			}
+		for (int it = 0; it < 400000; it++) {
+			bool all = true;
+			for (int i = 0; i < cc->npeers; i++) all = all && atomic_load(&pr[i].finished);
 			pw.is_sock = false;
 			if (expect_estate_send(&pw, a1, "context-that-never-received")) probe_idle_ctx++;
 			if (!cc->use_sock) {
 				pw.is_sock = true;
 				if (expect_estate_send(&pw, a1, "socket-that-never-received")) probe_idle_sock++;
 			}
-			if (done >= total) break;
-			bool anyfail = false;
-			for (int i = 0; i < cc->npeers; i++) anyfail = anyfail || pr[i].failed;
-			if (anyfail) break;
+			if (all) break;
 			vf_usleep(300);
 		}
 	}
@@ -510,7 +518,7 @@ run_case(long idx, const casecfg *cc)
 	vf_msleep(2);
 	for (int i = 0; i < cc->npeers; i++) {
 		peer *p = &pr[i];
-		if (p->failed) continue;
+		if (p->failed || p->died) continue;
 		int rvx = peer_recv(p, 3);
 		if (rvx == 0) {
 			char key[96];
@@ -536,7 +544,11 @@ run_case(long idx, const casecfg *cc)
 		for (int w = 0; w < MAXWORK; w++) {
 			if (p->seen_worker[w]) vf_class("respond/%s/served-by-%s/peers=%d", pkname[p->kind], (w == 0 && cc->use_sock) ? "socket" : "context", cc->npeers);
 		}
-		if (p->kind == PK_TCP) {
+		if (p->died) {
+			vf_stat("respondent_connections_cut_mid_window", 1);
+			vf_stat("respondent_surveys_orphaned_by_cut", p->orphaned);
+			vf_class("respond/connection-cut/peers=%d/%s", cc->npeers, cc->use_sock ? "sock+ctx" : "ctx");
+		} else if (p->kind == PK_TCP) {
 			close(p->fd);
 		} else {
 			nng_socket_close(p->xs);
@@ -593,6 +605,11 @@ main(int argc, char **argv)
 		for (int i = 0; i < MAXPEERS; i++) c.kind[i] = vf_chance(&r, 1, 2) ? PK_TCP : PK_XSURV;
 		c.nworkers = (int) vf_range(&r, 1, MAXWORK);
 		c.use_sock = vf_chance(&r, 1, 2);
+		c.dies = -1;
+		if (vf_chance(&r, 1, 2)) {
+			int d = (int) vf_below(&r, (uint32_t) c.npeers);
+			if (c.kind[d] == PK_TCP) c.dies = d;
+		}
 		uint32_t k = vf_below(&r, 4);
 		c.ttl = k == 0 ? 15 : k == 1 ? (int) vf_range(&r, 1, 4) : 8;
 		c.window = (int) vf_range(&r, 1, 8);
